@@ -129,7 +129,84 @@ fn scenario<T: Asset + Sig>(res: &mut SubResult, ext: &'static str, path: &'stat
     }
 }
 
-pub fn run(_args: &Args) -> SubResult {
+// ------------------------------------------------------------------------------------------------
+// schedules: a value is removed / taken / cleared / dropped with its cache right after hot_reload
+// returned -- "never while a handle or read guard can still reach it" includes the reloader's own
+// handle: whatever the reloader thread was doing when hot_reload returned, every value is dropped
+// exactly once and nothing is touched after it was freed
+
+pub fn mk_removal(p: &serde_json::Value) -> std::sync::Arc<crate::util::Mk> {
+    let path = p["path"].as_str().unwrap().to_string();
+    let calls = p["calls"].as_u64().unwrap_or(1) as usize;
+    std::sync::Arc::new(move || {
+        let path = path.clone();
+        Box::new(move || {
+            let made0 = MADE[2].load(Ordering::SeqCst);
+            let gone0 = GONE[2].load(Ordering::SeqCst);
+            let m = Mem::new(true);
+            m.put("k", "h", "1");
+            let mut c = AssetCache::with_source(m.clone());
+            ds::adopt(1, "reloader");
+            let v0 = c.load::<H>("k").map(|h| h.read().sig()).unwrap_or("ERR".into());
+            ds::log(format!("load {v0}"));
+            m.put("k", "h", "2");
+            m.ev(OwnedDirEntry::File("k".into(), "h".into()));
+            ds::quiesce();
+            for _ in 0..calls {
+                c.hot_reload();
+            }
+            match path.as_str() {
+                "remove" => ds::log(format!("remove {}", c.remove::<H>("k"))),
+                "take" => {
+                    let v = c.take::<H>("k");
+                    ds::log(format!("take {}", v.as_ref().map(|v| v.sig()).unwrap_or("-".into())));
+                    drop(v);
+                }
+                "clear" => c.clear(),
+                "read" => ds::log(format!("read {}", c.get_cached::<H>("k").map(|h| h.read().sig()).unwrap_or("-".into()))),
+                _ => {}
+            }
+            // let the reloader finish whatever it still has to do, with the entry gone
+            ds::quiesce();
+            drop(c);
+            ds::quiesce();
+            ds::log(format!("made {} dropped {}", MADE[2].load(Ordering::SeqCst) - made0, GONE[2].load(Ordering::SeqCst) - gone0));
+        })
+    })
+}
+pub fn judge_removal(r: &ds::RunResult) -> Option<(String, String)> {
+    let last = r.log.last().cloned().unwrap_or_default();
+    let nums: Vec<i64> = last.split_whitespace().filter_map(|t| t.parse().ok()).collect();
+    if !last.starts_with("made ") || nums.len() != 2 {
+        return Some(("incomplete".into(), format!("the execution did not reach its end: log {:?}", r.log)));
+    }
+    if nums[0] != nums[1] {
+        return Some(("drop-count".into(), format!("{} values were created and {} dropped by the time the cache and the reloader were gone; log {:?}", nums[0], nums[1], r.log)));
+    }
+    for l in &r.log {
+        if (l.starts_with("take ") || l.starts_with("read ")) && !(l.ends_with("heap-2-xx") || l.ends_with("heap-1-x")) {
+            return Some(("torn-or-freed-value".into(), format!("a value read after hot_reload returned is neither the old nor the new one: {l}")));
+        }
+    }
+    None
+}
+
+pub fn run(args: &Args) -> SubResult {
+    let mut res = run_default(args);
+    let thorough = args.thorough();
+    for path in ["remove", "take", "clear", "drop", "read"] {
+        for calls in [1usize, 2] {
+            let params = json!({"path": path, "calls": calls});
+            let mk = mk_removal(&params);
+            let mut e = crate::util::Exp { res: &mut res, harness: "c13_removal", params, bound: if thorough { 3 } else { 2 }, max_exec: if thorough { 200_000 } else { 4000 }, cfg: ds::Config::default() };
+            e.run(&*mk, &mut |r| judge_removal(r));
+        }
+    }
+    res.bound += " || schedules: load; edit; notify; quiesce; hot_reload x1..2; then remove / take / clear / drop of the cache / read, every schedule with <= 2 (thorough 3) deviations (preemptions, time-outs firing)";
+    res
+}
+
+fn run_default(_args: &Args) -> SubResult {
     let mut res = SubResult::new("C13", "c13_layouts");
     res.bound = "asset types {zero-sized, 1 byte, heap-owning, 64-byte aligned} x 0..3 reloads on the real reloader thread x removal path {remove, take, clear, cache drop}".into();
     res.rule = "exhaustive product under detsched's default schedule with quiescence barriers; oracle: value and alignment after each byte-wise swap, reload id, live-count unchanged by a pass (old value dropped exactly once), created == dropped at the end".into();
